@@ -46,7 +46,7 @@ func (p policyDesc) cfg() *retry.RetryPolicyConfiguration {
 type retryCase struct {
 	Entry   string     `json:"entry"` // retry.RetryIf | retry.RetryOnError | http.RetryOnError
 	Policy  policyDesc `json:"policy"`
-	Script  string     `json:"script"`   // over O R N C; invocations beyond the script get R
+	Script  string     `json:"script"`   // over O R N C L; invocations beyond the script get R (L: retriable failure, and the context is cancelled from the logger when the library reports that it is going to retry, i.e. after its decision and before the next attempt)
 	Ctx     string     `json:"ctx"`      // cancel | custom-deadline
 	PreDone bool       `json:"pre_done"` // context already done before the call
 	Flavour string     `json:"flavour"`  // commonerrors | typed
@@ -128,8 +128,21 @@ type inv struct {
 	Idx        int    `json:"idx"`
 	Outcome    string `json:"outcome"`
 	DoneBefore bool   `json:"ctx_done_before"`
+	Fired      bool   `json:"cancelled_from_logger,omitempty"`
 	err        error
 }
+
+// cancelSink is a logr sink which cancels the context the first time the library logs after it was armed.
+type cancelSink struct {
+	onError func()
+}
+
+func (c *cancelSink) Init(logr.RuntimeInfo)                  {}
+func (c *cancelSink) Enabled(int) bool                       { return true }
+func (c *cancelSink) Info(int, string, ...interface{})       {}
+func (c *cancelSink) Error(error, string, ...interface{})    { c.onError() }
+func (c *cancelSink) WithValues(...interface{}) logr.LogSink { return c }
+func (c *cancelSink) WithName(string) logr.LogSink           { return c }
 
 var retryWatchdogs atomic.Int64
 
@@ -155,6 +168,7 @@ func runRetryCase(r *vrun.Run, c retryCase) {
 
 	var mu sync.Mutex
 	var log []inv
+	armed := false
 	limit := c.Policy.RetryMax
 	if limit < 1 {
 		limit = 1
@@ -193,10 +207,25 @@ func runRetryCase(r *vrun.Run, c retryCase) {
 		case 'C':
 			cancelFn()
 			e.err = mkErr(i, true)
+		case 'L':
+			armed = true
+			e.err = mkErr(i, true)
 		}
 		log = append(log, e)
 		mu.Unlock()
 		return e.err
+	}
+	logger := logr.Discard()
+	if strings.Contains(c.Script, "L") {
+		logger = logr.New(&cancelSink{onError: func() {
+			mu.Lock()
+			if armed {
+				armed = false
+				cancelFn()
+				log[len(log)-1].Fired = true
+			}
+			mu.Unlock()
+		}})
 	}
 	isRetriable := func(err error) bool {
 		if c.Flavour == "typed" {
@@ -222,11 +251,11 @@ func runRetryCase(r *vrun.Run, c retryCase) {
 		cfg := c.Policy.cfg()
 		switch c.Entry {
 		case "retry.RetryOnError":
-			res.err = retry.RetryOnError(ctx, logr.Discard(), cfg, fn, "scripted operation failed", commonerrors.ErrUnavailable, commonerrors.ErrConflict)
+			res.err = retry.RetryOnError(ctx, logger, cfg, fn, "scripted operation failed", commonerrors.ErrUnavailable, commonerrors.ErrConflict)
 		case "http.RetryOnError":
-			res.err = libhttp.RetryOnError(ctx, logr.Discard(), cfg, fn, "scripted operation failed", commonerrors.ErrUnavailable, commonerrors.ErrConflict)
+			res.err = libhttp.RetryOnError(ctx, logger, cfg, fn, "scripted operation failed", commonerrors.ErrUnavailable, commonerrors.ErrConflict)
 		default:
-			res.err = retry.RetryIf(ctx, logr.Discard(), cfg, fn, "scripted operation failed", isRetriable)
+			res.err = retry.RetryIf(ctx, logger, cfg, fn, "scripted operation failed", isRetriable)
 		}
 	}()
 	var res result
@@ -325,7 +354,7 @@ func judgeRetry(r *vrun.Run, c retryCase, log []inv, err error, panicked any, ti
 	}
 	ctxDone := c.PreDone
 	for _, e := range log {
-		if e.Outcome == "C" {
+		if e.Outcome == "C" || e.Fired {
 			ctxDone = true
 		}
 	}
@@ -339,6 +368,10 @@ func judgeRetry(r *vrun.Run, c retryCase, log []inv, err error, panicked any, ti
 			endReason = "non-retriable"
 		case "C":
 			endReason = "cancel"
+		case "L":
+			if last.Fired {
+				endReason = "cancel-from-logger"
+			}
 		}
 		if c.PreDone {
 			endReason = "predone-invoked"
@@ -355,6 +388,10 @@ func judgeRetry(r *vrun.Run, c retryCase, log []inv, err error, panicked any, ti
 			r.Obs("retry_stop_after_nonretriable_opportunities", 1)
 		case "C":
 			r.Obs("retry_stop_after_cancel_opportunities", 1)
+		case "L":
+			if last.Fired {
+				r.Obs("retry_stop_after_cancel_between_decision_and_attempt_opportunities/wait="+waitClass(c.Policy), 1)
+			}
 		}
 	}
 	if endReason == "exhausted" && len(log) == limit && limit >= 2 {
@@ -466,6 +503,9 @@ func buildRetryCases(r *vrun.Run) []retryCase {
 					if c.Entry == "retry.RetryIf" && rng.IntN(2) == 0 {
 						c.Flavour = "typed"
 					}
+					if strings.Contains(s, "C") && rng.IntN(2) == 0 {
+						c.Script = strings.Replace(s, "C", "L", 1)
+					}
 					cases = append(cases, c)
 					idx++
 				}
@@ -502,8 +542,10 @@ func buildRetryCases(r *vrun.Run) []retryCase {
 				b[j] = 'O'
 			case x < 8:
 				b[j] = 'N'
-			default:
+			case x < 9:
 				b[j] = 'C'
+			default:
+				b[j] = 'L'
 			}
 		}
 		kind := kinds[rng.IntN(3)]
